@@ -157,6 +157,11 @@ impl Default for Limits {
     }
 }
 
+/// Multiplier for wall caps (slow executors such as Miri set HBMC_WALL_SCALE).
+pub fn wall_scale() -> f64 {
+    std::env::var("HBMC_WALL_SCALE").ok().and_then(|s| s.parse().ok()).unwrap_or(1.0)
+}
+
 pub fn nthreads() -> usize {
     std::env::var("VERIF_THREADS")
         .ok()
@@ -252,7 +257,7 @@ pub fn bfs<H: Harness>(h: &H, seeds: Vec<Vec<H::Op>>, lim: &Limits, stats: &Stat
                 break;
             }
         }
-        if t0.elapsed().as_secs_f64() > lim.max_wall_s {
+        if t0.elapsed().as_secs_f64() > lim.max_wall_s * wall_scale() {
             cap_hit = Some(format!("wall cap {}s", lim.max_wall_s));
             break;
         }
